@@ -73,6 +73,7 @@ type PointInfo struct {
 type Exec struct {
 	Points    []PointInfo
 	Choices   []int
+	Trace     []string // when KeepTrace: one entry per scheduling point (who was where, who ran next)
 	Quiescent bool // ended with every harness thread finished and all service threads blocked
 	Leaked    bool // some aborted thread did not unwind (blocked for real in a deferred function)
 	Deadlock  bool
@@ -209,8 +210,8 @@ func (s *sched) choose(running int, label string) int {
 	}
 	s.exec.Points = append(s.exec.Points, PointInfo{Enabled: en, RunningEnabled: re, Chosen: c, Label: label})
 	s.exec.Choices = append(s.exec.Choices, c)
-	if s.keepTrace {
-		s.trace = append(s.trace, fmt.Sprintf("%d:%s->T%d", running, label, en[c]))
+	if KeepTrace {
+		s.exec.Trace = append(s.exec.Trace, fmt.Sprintf("T%d@%s->T%d(%s)", running, label, en[c], s.threads[en[c]].name))
 	}
 	if s.maxPts > 0 && len(s.exec.Points) > s.maxPts {
 		fmt.Printf("HARNESS-ERROR: vsched: execution exceeded %d scheduling points (livelock / unbounded loop?)\n", s.maxPts)
@@ -350,6 +351,9 @@ func Yield() { Point("yield") }
 // while an exploration is active), "forbid" (harness error). Default: daemon when spawned during
 // set-up (constructors, Start methods), thread when spawned by a running thread.
 var SpawnPolicy = map[string]string{}
+
+// KeepTrace records a human-readable line per scheduling point in Exec.Trace (replay / diagnosis).
+var KeepTrace = false
 
 // DaemonSettle is how many processor yields a scheduler with no enabled thread grants to foreign
 // goroutines (daemons in pass-through mode that may hold a lock) before concluding deadlock/quiescence.
